@@ -182,6 +182,38 @@ def run(chk, tier):
     chk.expect(any((c or "").endswith("::decoder_for") for c, _ in H.calls(ho["body"])), "selection", "new_with_override", "uses-ts-decoder", "ts.decoder_for()", "ok")
     # the probe trusts VR::from_binary to recognise exactly the 34 defined two-letter codes (anything else means "not explicit VR")
     c03.vr_code(chk, fx, fx.variants(C.VR_ENUM))
+    # the adaptive decoder's own header paths report what they read: the FFFE early return (4 length bytes, 8 reported, test on the group
+    # equal to the explicit decoder's), and the two implicit fall-backs of the probe (2 + 2 length bytes after the tag, 8 reported)
+    chk.rule("adaptive-header-bytes", "AdaptiveDecoder::decode_header: `group == 0xFFFE` -> read 4, report 8 (same test as ExplicitVRLittleEndianDecoder); "
+             "probe fall-backs to implicit read buf[0..2] then buf[2..4] and report 8; the explicit path reports decode_explicit_length's count")
+    hads = [hh for hh in fx.crate("dicom_encoding")["hir"] if "adaptive_le::AdaptiveVRLittleEndianDecoder" in hh["path"] and hh["path"].endswith("decode::Decode>::decode_header")]
+    hexp = [hh for hh in fx.crate("dicom_encoding")["hir"] if "explicit_le::ExplicitVRLittleEndianDecoder" in hh["path"] and hh["path"].endswith("decode::Decode>::decode_header")]
+    if len(hads) != 1 or len(hexp) != 1:
+        raise facts.MissingAnchor("AdaptiveDecoder / ExplicitVRLittleEndianDecoder decode_header")
+    hd_ = hads[0]
+
+    def delim(hh):
+        ifs_ = [x for x in H.walk(hh["body"]) if H.kind(x) == "if" and "65534" in H.show(x[2], 6)]
+        if len(ifs_) != 1:
+            return None
+        x = ifs_[0]
+        return (H.show(x[2], 6), sum(e[2] or 0 for e, _ in C.read_exact_calls(x[3])), sorted({v for _, v in C.ok_literals(x[3])}))
+    da, de = delim(hd_), delim(hexp[0])
+    chk.expect(da is not None and da == de and da[1:] == (4, [8]) and da[0] == "(group Eq 65534)", "adaptive-header-bytes", "decode_header", "delimiter-branch",
+               "(group == 0xFFFE): reads 4, reports 8, as the explicit decoder", {"adaptive": da, "explicit": de}, loc=C.fn_loc(hd_))
+    # fall-backs: blocks that set the state to Implicit
+    fbs = []
+    for x in H.walk(hd_["body"]):
+        if H.kind(x) == "block" and any(H.kind(s) in ("semi", "sexpr") and H.kind(H.peel(s[2])) == "mcall" and H.peel(s[2])[3] == "set" and "VrState::Implicit" in H.show(s[2], 5) for s in x[2]):
+            fbs.append(x)
+    for i, b in enumerate(fbs):
+        ext = [e[1:] for e, _ in C.read_exact_calls(b)]
+        lits = sorted({v for _, v in C.ok_literals(b)})
+        chk.expect(ext == [(2, 2)] and lits == [8], "adaptive-header-bytes", "decode_header", f"implicit-fallback#{i}", "reads buf[2..4] (after the probed buf[0..2]), reports 8",
+                   {"reads": ext, "reported": lits}, loc=f"{hd_['loc']['f']}:{b[1]}")
+    chk.expect(len(fbs) == 2, "adaptive-header-bytes", "decode_header", "fallback-count", 2, len(fbs), loc=C.fn_loc(hd_))
+    probe = [e[1:] for e, x in C.read_exact_calls(hd_["body"]) if e[1:] == (0, 2)]
+    chk.expect(len(probe) == 1, "adaptive-header-bytes", "decode_header", "probe-reads-two-bytes", "one read_exact(buf[0..2]) before the decision", probe, loc=C.fn_loc(hd_))
     # the probe compares the VR it reads with the dictionary's VR for the first element's tag (StandardDataDictionary::by_tag): the
     # generic fall-backs of that look-up (group length -> UL, private creator -> LO, in that order and with those ranges) decide whether an
     # Explicit VR stream starting with a group length or a private element is recognised -- C15's look-up order instances are part of this
